@@ -145,6 +145,19 @@ func c15Build(c c15Config) *c15World {
 					if ps, ok := ctx.ResponseWriter().(http.Pusher); ok {
 						_ = ps.Push("/other", nil)
 					}
+				case "deep-recursion":
+					// the panic is raised 400 calls further down the stack
+					var down func(n int)
+					down = func(n int) {
+						if n == 0 {
+							if k := ctx.Request().Header.Get("X-Kind"); k != "" {
+								c15PanicWith(k)
+							}
+							c.doPanic()
+						}
+						down(n - 1)
+					}
+					down(400)
 				case "after-flush":
 					ctx.ResponseWriter().Flush() // commits the implicit 200
 				}
@@ -373,7 +386,7 @@ func c15Configs(thorough bool) []c15Config {
 	if thorough {
 		maxN = 5
 	}
-	phases := []string{"before-write", "after-status", "after-body", "after-next", "unresolved-dependency", "after-failed-hijack-and-push", "after-flush"}
+	phases := []string{"before-write", "after-status", "after-body", "after-next", "unresolved-dependency", "after-failed-hijack-and-push", "after-flush", "deep-recursion"}
 	values := []string{"string", "error", "runtime", "struct", "abort", "nil-error-pointer", "panicking-stringer"}
 	styles := []string{"use", "route", "group", "use-action", "route-action"}
 	for n := 2; n <= maxN; n++ {
@@ -385,7 +398,7 @@ func c15Configs(thorough bool) []c15Config {
 							if ph == "unresolved-dependency" && v != "string" {
 								continue
 							}
-							if (ph == "after-failed-hijack-and-push" || ph == "after-flush") && v != "string" && v != "runtime" && !thorough {
+							if (ph == "after-failed-hijack-and-push" || ph == "after-flush" || ph == "deep-recursion") && v != "string" && v != "runtime" && !thorough {
 								continue
 							}
 							for _, st := range styles {
@@ -447,7 +460,7 @@ func c15Run(r *core.Run) {
 	if !r.Thorough() {
 		seqs = []string{"P", "PN", "PPN", "NPN", "PNP", "PQ", "QPQ", "PPQ"}
 	}
-	r.Rule = "engine E: stacks of 2..4 (thorough 5) handlers with Recovery at every position, logging middleware before it, pass-through handlers (with and without their own Next()) between it and the panicking handler at every later position; panic phase {before any write, after a status, after body bytes, after Next() returned, unresolved dependency, after a failed Hijack and Push, after Flush} x value {string, error, runtime error, struct, http.ErrAbortHandler, typed-nil error pointer, value whose String() panics} x registration style {application middleware, route handlers, middleware+group, middleware or route handlers with the panicking handler as the final Action} x {default, application-mapped ReturnHandler} x environment {development, production, test} x request sequences over {panicking, normal}; oracle: nothing escapes, status 500 iff nothing had been sent, detail in the body iff development, outer middleware completes, normal requests equal a fresh instance; non-trivial = sequence with >=2 requests or a panic after something was written"
+	r.Rule = "engine E: stacks of 2..4 (thorough 5) handlers with Recovery at every position, logging middleware before it, pass-through handlers (with and without their own Next()) between it and the panicking handler at every later position; panic phase {before any write, after a status, after body bytes, after Next() returned, unresolved dependency, after a failed Hijack and Push, after Flush, 400 calls down the stack} x value {string, error, runtime error, struct, http.ErrAbortHandler, typed-nil error pointer, value whose String() panics} x registration style {application middleware, route handlers, middleware+group, middleware or route handlers with the panicking handler as the final Action} x {default, application-mapped ReturnHandler} x environment {development, production, test} x request sequences over {panicking, normal}; oracle: nothing escapes, status 500 iff nothing had been sent, detail in the body iff development, outer middleware completes, normal requests equal a fresh instance; non-trivial = sequence with >=2 requests or a panic after something was written"
 	r.Bounds["configs"] = len(cfgs)
 	r.Bounds["sequences"] = seqs
 	r.Assumptions = []string{"panic(nil) is outside the statement ('any non-nil value')", "environments are process-global: the three environments run as sequential phases"}
